@@ -73,6 +73,27 @@ def counter_record(n, tag=''):
     return record(globals()[COUNTER_CLASS[0]](n, tag))
 
 
+def trailing_bytes(data):
+    """Number of bytes of a data record that follow its two pickles (class metadata, state): must be 0."""
+    import io
+    from ZODB._compat import Unpickler
+    f = io.BytesIO(data)
+    u = Unpickler(f)
+    u.persistent_load = lambda ref: ('ref', ref)
+    u.find_global = lambda m, n: (m, n)
+    try:
+        u.find_class = lambda m, n: (m, n)
+    except Exception:
+        pass
+    try:
+        u.load()
+        u.load()
+    except Exception as ex:
+        from zverif.api import fail
+        fail('a record handed out by the storage cannot be unpickled', type(ex).__name__, repr(bytes(data)[:80]))
+    return len(data) - f.tell()
+
+
 def state_of(data):
     """Unpickle a record's state (second pickle) into a plain dict, for comparisons."""
     import io
